@@ -11,7 +11,7 @@ PROPS["C10"] = dict(
             dict(name="hostile", harness="c10.cpp", flavor="asan", mode="hostile", cases=dict(quick=60000, thorough=1000000))],
     rule="case = initial message (empty | wire from the reference encoder) + 1..12 insertions into random sections, checked after each; distinct = distinct history text; "
          "hostile case = mutated wire message + getters + 1..3 insertions + serialize",
-    floors=dict(any={"distinct": 20000, "insertions": 100000, "insertions_shifting_parsed_records": 10000, "independent_decodes": 100000, "initial:wire-compressed": 5000,
+    floors=dict(any={"refused_insertions": 5000, "refused_insertions_before_populated_section": 2000, "distinct": 20000, "insertions": 100000, "insertions_shifting_parsed_records": 10000, "independent_decodes": 100000, "initial:wire-compressed": 5000,
                      "hostile_accepted": 5000, "hostile_rejected_at_parse": 1000, "hostile_error_reported:add": 100, "hostile_overlong_name": 5000, "hostile_pointer_to_end": 5000}),
     assumptions=["names are legal: labels 1..63 octets, total <= 255 octets", "messages stay below 16 KiB so every name start is addressable by a 14-bit pointer"],
 )
